@@ -67,7 +67,7 @@ CLAIMED = {
         "technique": "Coq proof (loop invariants over a model of keywordsearches.py) + differential correspondence",
     },
     "C04": {
-        "text": ("8 theorems (Coq, no axioms) over a model of Processor._delete_nodes (after the repairs 17f9ea8 and "
+        "text": ("10 theorems (Coq, no axioms) over a model of Processor._delete_nodes (after the repairs 17f9ea8 and "
                  "1c243db) acting on the coordinates the read side gathered (parents addressed by object identity; "
                  "Collector results flattened, the root refused before anything is deleted, one entry per (parent, "
                  "parentref) place, list elements by descending position, dict / list / set branches): "
@@ -80,7 +80,11 @@ CLAIMED = {
                  "delete_nodes with the coordinates captured at the entry of _delete_nodes, model vs implementation "
                  "vs an independent judge over a shadow copy.  C04_delete_exact_end_to_end composes the "
                  "evaluator model with the delete model (hypothesis: every coordinate of the query's own answer "
-                 "locates a node; `**` + filter answers that name a node twice are inside it)."),
+                 "locates a node; `**` + filter answers that name a node twice are inside it); "
+                 "C04_delete_end_to_end_full discharges that hypothesis from C02 (C04_gathered_located: every gathered "
+                 "coordinate is the root coordinate or locates a node) for every path of the C01 fragment without "
+                 "slice segments: the delete is refused with the document unchanged when the root was matched and "
+                 "otherwise removes exactly the gathered nodes - negative indexes, anchors, duplicates, disorder included."),
         "design_ref": "DESIGN.md section 4 (C04), docs/C04.md",
         "note": NOTE_COMMON + "  The matched coordinates are an input of this model (obtained from the real Processor); the read side is C01/C02.",
         "technique": "Coq proof (reverse-order index lemmas over an identity-addressed document model) + differential correspondence",
